@@ -27,6 +27,13 @@ UNITS.append(dict(
                dict(name='dbus_set_error / dbus_move_error / dbus_error_*', file='dbus/dbus-errors.c', status='stub', note='name field semantics only')],
     assumptions=[OWN_INV, 'n_services_owned >= 0 (C13.counters)',
                  'callees that fail report NoMemory or a non-limit error']))
+import copy
+_atomic = copy.deepcopy(UNITS[0])
+_atomic.update(name='C04.acquire_atomic', props=['C14'], defines=['VERIF_C14'], must_have=['acq.c14a', 'acq.c14b', 'acq.c14c'],
+               trace_is_execution=True, replay_family='c04_own', replay_fn='atomic')
+_atomic['functions'][0] = dict(name='bus_registry_acquire_service', file=SVC, status='enforced',
+                               contract='FALSE => nothing changed that the transaction cannot undo (primary flags, requester entry)')
+UNITS.append(_atomic)
 UNITS.append(dict(
     name='C04.release_table', props=['C04'], kind='P', route='stub', bus=True,
     tus=[dict(file=SVC, include_as='VERIF_TU')], harness='harness/c04_release.c',
@@ -116,3 +123,5 @@ driver_unit('driver_list_queued_owners', 5, 'bus_driver_handle_list_queued_owner
             [dict(name='bus_service_list_queued_owners', file=SVC, status='replaced', note='delivers <= 3 names; enforced (B) by C04.list_queued'),
              dict(name='_dbus_list_append/_dbus_list_get_first_link/_dbus_list_clear', file=LIST, status='stub', note='one-element list from a static link')],
             kind='B', unwind=66, bounds={'queued owners': '<= 3'})
+queue_unit('list_queued', 4, 'bus_service_list_queued_owners', 3, ['listq.names', 'listq.fail'],
+           'returned list = unique names of the queue entries in queue order (primary first); FALSE => empty list; queue untouched', props=('C04',), expect_s=30)
